@@ -536,6 +536,7 @@ pub fn vcf_text(rng: &mut Rng, refs: &[Reference], spec: &VcfSpec) -> Vec<u8> {
                 let _ = write!(s, "\t{}", keys.join(":"));
                 let alleles = n_alt + 1;
                 let ploidy = *rng.pick(&[2usize, 2, 2, 2, 1, 3]);
+                let mut matrix: Vec<Vec<String>> = Vec::new();
                 for _ in 0..spec.samples {
                     let mut vals: Vec<String> = Vec::new();
                     for k in &keys {
@@ -544,8 +545,9 @@ pub fn vcf_text(rng: &mut Rng, refs: &[Reference], spec: &VcfSpec) -> Vec<u8> {
                                 // one ploidy per record: a triploid next to a diploid call is written by the BCF
                                 // writer in a form the BCF readers cannot decode (see known_problem_items)
                                 let sep = if rng.chance(1, 3) { '|' } else { '/' };
+                                // (a haploid `.` is a missing GT value, which the BCF writer rejects)
                                 let calls: Vec<String> = (0..ploidy)
-                                    .map(|_| if rng.chance(1, 10) { ".".to_string() } else { rng.usize_below(alleles).to_string() })
+                                    .map(|_| if ploidy > 1 && rng.chance(1, 10) { ".".to_string() } else { rng.usize_below(alleles).to_string() })
                                     .collect();
                                 calls.join(&sep.to_string())
                             }
@@ -587,18 +589,33 @@ pub fn vcf_text(rng: &mut Rng, refs: &[Reference], spec: &VcfSpec) -> Vec<u8> {
                         };
                         vals.push(v);
                     }
-                    // a sample whose values are ALL missing is re-emitted by the VCF writer as an empty column,
-                    // which read_record_buf then rejects (see known_problem_items): keep one concrete value
-                    if vals.iter().all(|v| v == ".") {
-                        vals[0] = match keys[0] {
-                            "GT" => vec!["0"; ploidy].join("/"),
-                            "FT" => "PASS".to_string(),
-                            "AD" => (0..alleles).map(|_| "1").collect::<Vec<_>>().join(","),
-                            "PL" => (0..alleles * (alleles + 1) / 2).map(|_| "0").collect::<Vec<_>>().join(","),
-                            "HF" => "1,2".to_string(),
-                            _ => "5".to_string(),
-                        };
+                    matrix.push(vals);
+                }
+                let concrete = |key: &str| -> String {
+                    match key {
+                        "GT" => vec!["0"; ploidy].join("/"),
+                        "FT" => "PASS".to_string(),
+                        "AD" => (0..alleles).map(|_| "1").collect::<Vec<_>>().join(","),
+                        "PL" => (0..alleles * (alleles + 1) / 2).map(|_| "0").collect::<Vec<_>>().join(","),
+                        "HF" => "1,2".to_string(),
+                        _ => "5".to_string(),
                     }
+                };
+                // a sample whose values are ALL missing is re-emitted by the VCF writer as an empty column, which
+                // read_record_buf then rejects (see known_problem_items): keep one concrete value per sample
+                for vals in &mut matrix {
+                    if vals.iter().all(|v| v == ".") {
+                        vals[0] = concrete(keys[0]);
+                    }
+                }
+                // a FORMAT key that is missing in EVERY sample: the BCF writer rejects it for String / Float-array
+                // keys and writes an undecodable series for Integer-array keys: keep one concrete value per key
+                for (k, key) in keys.iter().enumerate() {
+                    if matrix.iter().all(|vals| vals[k] == ".") {
+                        matrix[0][k] = concrete(key);
+                    }
+                }
+                for vals in &matrix {
                     let _ = write!(s, "\t{}", vals.join(":"));
                 }
             }
